@@ -160,7 +160,7 @@ def _merge_extra(dst: dict, src: dict) -> None:
 def run_parent(prop: str, tier: str, seed: int, mod) -> int:
     t0 = time.time()
     nshards = mod.SHARDS[tier] if hasattr(mod, "SHARDS") else (4 if tier == "quick" else 16)
-    shard_timeout = getattr(mod, "SHARD_TIMEOUT", {"quick": 240, "thorough": 1500})[tier]
+    shard_timeout = getattr(mod, "SHARD_TIMEOUT", {"quick": 400, "thorough": 2700})[tier]
     os.makedirs(WORK, exist_ok=True)
     import glob
 
